@@ -231,6 +231,59 @@ def run(ctx):
     ctx.check(pointee.get('bits', 0) >= 16, 'R12.8', 'FIX8::FieldTrait_Hash_Array::_arr#index-width', ha_rec[0]['file'].split('/')[-1],
               'a slot of the tag -> row index is at least 16 bits wide (a message may have more than 255 fields)',
               'a slot of the tag -> row index is %s bits wide: rows above 255 are truncated, the field is looked up at the wrong row and reported absent' % pointee.get('bits'))
+    # ---------------- R12.9 the reverse name tables are ordered by the whole key: the comparator handed to both maps is strcmp(p1, p2) < 0 over its two parameters.
+    # A bounded comparison (strncmp/memcmp with a length) makes two names that agree in their first N characters one key: a name that is not in the schema
+    # is then reported as a hit.
+    cmpf = prog.fn1('FIX8::F8MetaCntx::_comp')
+    ctx.saw(cmpf)
+    rr = [x for x in cmpf.all_nodes() if x.k == 'ReturnStmt' and x.children]
+    ctx.need(len(rr) == 1, 'F8MetaCntx::_comp: single return expected')
+    e9 = rr[0].children[0].strip(casts=True)
+    cc = [c for c in q.calls_in(e9) if c.callee is not None and c.callee.get('n') in ('strcmp', 'strncmp', 'memcmp', 'strcasecmp', 'strncasecmp', 'strcoll')]
+    if len(cc) != 1:
+        raise AnalysisBroken('F8MetaCntx::_comp: `%s` is not a comparison through one C string comparison function' % e9.text())
+    nm9 = cc[0].callee.get('n')
+    whole = nm9 == 'strcmp' and len(cc[0].args) == 2 and {a.strip(casts=True).declid for a in cc[0].args if a.strip(casts=True).k == 'DeclRefExpr'} == set(cmpf.param_ids) and \
+        e9.k == 'BinaryOperator' and e9.op == '<' and e9.children[1].strip(casts=True).value == 0
+    if not whole and nm9 not in ('strncmp', 'memcmp', 'strcasecmp', 'strncasecmp'):
+        raise AnalysisBroken('F8MetaCntx::_comp: `%s` not decided' % e9.text())
+    ctx.check(whole, 'R12.9', 'FIX8::F8MetaCntx::_comp#whole-key', cmpf.loc, 'the reverse name maps are ordered by strcmp over the whole key',
+              'the reverse name maps are ordered by `%s`: keys that agree %s are one key, so reverse_find_* reports a hit for a name that is not in the schema '
+              '(e.g. a 32-character field name followed by more characters)' % (e9.text(), 'in their first %s characters' % cc[0].args[2].strip(casts=True).value
+                                                                                  if nm9 in ('strncmp', 'memcmp', 'strncasecmp') and len(cc[0].args) > 2 else 'up to letter case'))
+    # both maps are built with it
+    ctors = [g for g in prog.all_functions() if g.rec == 'FIX8::F8MetaCntx' and g.kind == 'ctor' and g.inits]
+    ok_maps = any(sum(1 for (m, e, it) in g.inits if m is not None and m['n'] in ('_reverse_msgtable', '_reverse_fieldtable') and
+                      any(x.k == 'DeclRefExpr' and x.decl is not None and x.decl.get('n') == '_comp' for x in e.walk())) == 2 for g in ctors)
+    ctx.check(ok_maps, 'R12.9', 'FIX8::F8MetaCntx::F8MetaCntx#maps-use-comparator', cmpf.loc, 'both reverse maps are constructed with that comparator')
+    # ---------------- R12.10 growth of the sorted sets: insert() copies _sz + 1 elements into an array of _sz + calc_reserve(_sz, _reserve) elements, so the helper
+    # must return at least 1 whenever the set holds an element.  Decided by evaluating the helper's flow graph for sz = 1..300 (and two large values) x the
+    # reserve percentages 1, the default, 100.
+    n_cr = 0
+    seen_cr = set()
+    for g in prog.all_functions():
+        if not (g.qp or '').endswith('::calc_reserve') or g.tmpl == 'pattern' or 'cfg' not in g.raw or g.loc in seen_cr:
+            continue
+        seen_cr.add(g.loc)
+        ctx.saw(g)
+        n_cr += 1
+        psz, pres = g.param_ids
+        locs_ = [dd for n_ in g.all_nodes() if n_.k == 'DeclStmt' for dd, _i in n_.r.get('decls', [])]
+        bad = None
+        for res_ in (1, 30, 100):
+            for sz_ in list(range(1, 301)) + [1000, 1000000]:
+                kind, val, env_ = q.follow(g, lambda a: None, track=locs_, env={psz: sz_, pres: res_})
+                if kind != 'return' or val is None:
+                    raise AnalysisBroken('%s: not evaluated for sz=%d res=%d' % (g.q, sz_, res_))
+                if val < 1 and bad is None:
+                    bad = (sz_, res_, val)
+        ctx.check(bad is None, 'R12.10', g.q.split('(')[0] + '#grows-by-at-least-one', g.loc,
+                  'calc_reserve(sz, res) >= 1 for every sz in 1..300, 1000, 10^6 and res in {1, 30, 100}',
+                  ('calc_reserve(%d, %d) = %d: insert() into a set of %d element(s) allocates %d + %d slots and copies %d elements into them (heap overflow)'
+                   % (bad[0], bad[1], bad[2], bad[0], bad[0], bad[2], bad[0] + 1)) if bad else None)
+    ctx.need(n_cr >= 2, 'fewer than 2 calc_reserve helpers found (%d)' % n_cr)
+    ctx.floor('R12.9', 2)
+    ctx.floor('R12.10', 2)
     ctx.floor('R12.7', 2)
     ctx.floor('R12.3', 7)
     ctx.floor('R12.4', 4)
